@@ -201,6 +201,8 @@ def build(f, cs, shape, by='raw', **kw):
     """an object of format f holding the codes cs (list) in `shape` (tuple, or () for a scalar from cs[0]).
     by='raw': codes written with raw=True (value type unset); by='value': built from the exact values - Python/NumPy ints
     when n_frac <= 0 (the object then carries an integer value type), floats otherwise."""
+    if by in AGED:
+        return build_aged(f, cs, shape, by, **kw)
     if by == 'raw':
         arr = np.array(cs, dtype=np.int64).reshape(shape) if shape != () else cs[0]
         return Fxp(arr, f[0], f[1], f[2], raw=True, **kw)
@@ -214,3 +216,140 @@ def build(f, cs, shape, by='raw', **kw):
     if codes(x) != [int(c) for c in cs] or flags(x) != (False, False, False):
         raise AssertionError('build by value did not give the codes')
     return x
+
+
+# ---------------------------------------------------------------------------------------------------------------------
+# Aged objects: the same observable object reached through a history instead of one constructor call.
+# The deciding comparison is differential - an aged object must behave exactly like the fresh one with the same
+# format, codes, shape and configuration - so no expected value is written by hand.
+
+def _quiet(fn):
+    try:
+        with np.errstate(all='ignore'):
+            return fn()
+    except Exception:
+        return None
+
+
+def warm(x):
+    """Every public read / render / operator that returns a new object, applied to a live object.  None of them may
+    change x; each may fill a cache inside x (or at module level).  Exceptions are ignored: an operation the library
+    does not support for this format is simply not part of the history."""
+    arr = isinstance(x.val, np.ndarray) and x.val.ndim >= 1
+    for fn in (lambda: x.get_val(), lambda: x.astype(float), lambda: x.astype(int), lambda: x.dtype,
+               lambda: x.get_dtype('fxp'), lambda: x.get_dtype('Q'), lambda: x.bin(), lambda: x.hex(),
+               lambda: x.bin(frac_dot=True), lambda: x.raw(), lambda: x.uraw(), lambda: np.asarray(x),
+               lambda: str(x), lambda: repr(x), lambda: x.info(verbose=0) if False else None,
+               lambda: x & x, lambda: x | 1, lambda: x ^ x, lambda: ~x, lambda: x + x, lambda: x - x, lambda: x * x,
+               lambda: 3 - x, lambda: x * 3, lambda: x + 0.5, lambda: x >> 1, lambda: x << 1, lambda: -x, lambda: abs(x),
+               lambda: x < x, lambda: x == 0, lambda: x >= 1, lambda: x // 3, lambda: x % 3, lambda: x / 3,
+               lambda: x.upper, lambda: x.lower, lambda: x.precision, lambda: x.get_status(),
+               lambda: Fxp(x), lambda: Fxp(None, like=x), lambda: x.like(x), lambda: x.deepcopy(),
+               lambda: np.sum(x), lambda: np.max(x), lambda: x.sum(), lambda: x.T, lambda: x.flatten(),
+               lambda: fx.add(x, x), lambda: fx.mul(x, x), lambda: fx.sub(x, x)):
+        _quiet(fn)
+    if arr:
+        for fn in (lambda: x[0], lambda: x[-1], lambda: x[0:1], lambda: x[::-1], lambda: np.cumsum(x),
+                   lambda: np.dot(x, x) if x.val.ndim == 1 else np.matmul(x, x.T), lambda: np.sort(x),
+                   lambda: np.clip(x, 0, 1), lambda: np.transpose(x), lambda: x.astype(float, index=0),
+                   lambda: x.get_val(index=0), lambda: x.bin()[0], lambda: x.reshape(x.val.shape)):
+            _quiet(fn)
+
+
+def _other_codes(f, cs):
+    """codes different from cs but inside the format (the state before the history's writes)"""
+    lo, hi = Fmt(*f).lo, Fmt(*f).hi
+    return [hi if c != hi else lo for c in cs]
+
+
+AGED = ('aged_write', 'aged_view', 'aged_sibling', 'aged_derived', 'aged_resized')
+
+
+def build_aged(f, cs, shape, how, **kw):
+    """the object build(f, cs, shape, 'raw') reached through the history `how`:
+      aged_write    object with other codes, every read/operator applied once, then each element written in place
+                    (set_val(index=) keeps the buffer), reads applied again in between
+      aged_view     a slice view of a larger parent, both read/operated on, then the elements written through the parent
+      aged_sibling  the object itself after shallow copies of it were resized / rewritten and its views were written back
+      aged_derived  other codes in the transposed/flattened arrangement, operated on, then derived (T / flatten / reshape)
+                    and written in place
+      aged_resized  born from integers in an n_frac=0 format of the other signedness, resized by dtype string, then written"""
+    cs = [int(c) for c in cs]
+    n = len(cs)
+    if how == 'aged_write' or (how in ('aged_view', 'aged_derived') and shape == ()):
+        x = build(f, _other_codes(f, cs), shape, 'raw', **kw)
+        warm(x)
+        if shape == ():
+            x.set_val(cs[0], raw=True)
+        else:
+            for i, idx in enumerate(np.ndindex(*shape)):
+                x.set_val(cs[i], raw=True, index=idx)
+                if i == 0:
+                    warm(x)
+        return x
+    if how == 'aged_view':
+        pad = _other_codes(f, cs)
+        if len(shape) == 1:
+            p = build(f, pad[:1] + pad + pad[:1], (n + 2,), 'raw', **kw)
+            warm(p)
+            z = p[1:n + 1]
+            warm(z)
+            for i in range(n):
+                p.set_val(cs[i], raw=True, index=1 + i)
+        else:
+            row = shape[1:]
+            k = int(np.prod(row))
+            p = build(f, pad[:k] + pad, (shape[0] + 1,) + tuple(row), 'raw', **kw)
+            warm(p)
+            z = p[1:]
+            warm(z)
+            for i, idx in enumerate(np.ndindex(*shape)):
+                p.set_val(cs[i], raw=True, index=(idx[0] + 1,) + tuple(idx[1:]))
+        return z
+    if how == 'aged_sibling':
+        x = build(f, cs, shape, 'raw', **kw)
+        warm(x)
+        # a shallow copy shares the status record by definition, so it only gets flag-free widenings here
+        wide = 64 if f[1] <= 52 else (f[1] + 8 if f[1] + 8 < 64 else None)
+        if wide is not None:
+            y = x.copy()
+            y.resize(n_word=wide)
+        y = x.copy()
+        y.set_val(0 if shape == () else np.zeros(shape, dtype=int))
+        y = x.deepcopy()
+        y.resize(signed=not f[0], n_word=f[1] + 3, n_frac=f[2] + 1)
+        y = x.deepcopy()
+        y.resize(n_word=f[1] + 8)
+        if shape != ():
+            v = x[0:1]
+            v.resize(n_word=f[1] + 8)          # a widened view must not stay attached to x
+            first = next(iter(np.ndindex(*shape)))
+            _quiet(lambda: v.set_val(_other_codes(f, cs[:1])[0], raw=True, index=(0,) + tuple(first[1:])))
+        return x
+    if how == 'aged_derived':
+        oc = _other_codes(f, cs)
+        if len(shape) == 2:
+            x0 = build(f, oc, (shape[1], shape[0]), 'raw', **kw)
+            warm(x0)
+            x = x0.T
+        else:
+            x0 = build(f, oc, (1, n), 'raw', **kw)
+            warm(x0)
+            x = x0.flatten()
+        for i, idx in enumerate(np.ndindex(*shape)):
+            x.set_val(cs[i], raw=True, index=idx)
+        return x
+    if how == 'aged_resized':
+        f0 = (not f[0], max(f[1], 2) + 1, 0)
+        zeros = 0 if shape == () else np.zeros(shape, dtype=np.int64)
+        x = Fxp(zeros, f0[0], f0[1], f0[2], **kw)
+        warm(x)
+        x.resize(dtype=Fmt(*f).dtype)
+        warm(x)
+        if shape == ():
+            x.set_val(cs[0], raw=True)
+        else:
+            for i, idx in enumerate(np.ndindex(*shape)):
+                x.set_val(cs[i], raw=True, index=idx)
+        return x
+    raise ValueError(how)
